@@ -133,6 +133,9 @@ MUTANTS = {
     'vmsa_ap1_user_allowed': (V, "        elif perms.ap == 0b001:\n            abort = not ispriv\n", "        elif perms.ap == 0b001:\n            abort = False\n", ['C19']),
     'hstr_tn_ignored': (V, "                    cr_nnum != 14 and\n                    self.registers.hstr.get_t_n(cr_nnum)):", "                    cr_nnum != 14 and\n                    self.registers.hstr.get_t_n(cr_nnum) and False):", ['C11']),
     'cp15_trap_ec_wrong': (V, "                    self.write_hsr(0b000011, hsr_string)\n                self.registers.take_hyp_trap_exception()\n            if (have_security_ext() and", "                    self.write_hsr(0b000101, hsr_string)\n                self.registers.take_hyp_trap_exception()\n            if (have_security_ext() and", ['C11']),
+    'clz_without_condition': (OPS + 'clz.py', "        if processor.condition_passed():", "        if True:", ['C08']),
+    'ldrexb_without_condition': (OPS + 'ldrexb.py', "        if processor.condition_passed():", "        if True:", ['C08']),
+    'smlald_without_condition': (OPS + 'smlald.py', "        if processor.condition_passed():", "        if True:", ['C08']),
     'keyerror_for_ap_100': (V, "        elif perms.ap == 0b100:\n            print('unpredictable')", "        elif perms.ap == 0b100:\n            abort = {}[perms.ap]", ['C18']),
     'stale_opcode_len_reuse': (V, "        elif self.registers.current_instr_set() == InstrSet.THUMB:\n            self.opcode_len = 2\n            self.opcode = self.mem_a_get(self.registers.pc_store_value(), self.opcode_len)",
                                "        elif self.registers.current_instr_set() == InstrSet.THUMB:\n            self.opcode_len = 2 if self.opcode_len != 1 else 4\n            self.opcode = self.mem_a_get(self.registers.pc_store_value(), 2)", []),
